@@ -46,7 +46,8 @@ func IndexValue(base *Value, index *Value, span func() errors.Span) (*Value, *Vm
 		}
 		return (*list.Values)[int(index)], nil
 	case StringValueKind:
-		str := (*base).(ValueString).Inner
+		// A string is indexed by characters, like `len()` counts and `for` iterates them.
+		str := []rune((*base).(ValueString).Inner)
 		index := (*index).(ValueInt).Inner
 
 		// handle index wrapping (-1 = len - 1)
